@@ -1,13 +1,19 @@
 /-
 Driver/C08 — line-protocol driver over the models of Model/Serial (install, download, size,
-ZBSDIFF container), Model/SerialPatchIndex (`m pidx`) and Model/SerialTvfs (`tv`, `tc`). `m <fmt> <hex>` runs parse → build → parse → build on the MODEL and prints the
-same outcome line as the harness prints for the real code; `o …` / `of …` lines (oracle-only
-formats, evaluated on the implementation alone) are answered `-`.
+ZBSDIFF container), Model/SerialPatchIndex (`m pidx`), Model/SerialTvfs (`tv`, `tc`) and — reused
+from C03 — Model/RootFile (`m root`, `rp`) and Model/ArchiveIndex (`ap`). `m <fmt> <hex>` runs
+parse → build → parse → build on the MODEL and prints the same outcome line as the harness prints
+for the real code; `rp <ver> <program>` is `RootBuilder::build` on a program (length + hash of the
+bytes), `ap <ks> <ob> <program>` is ArchiveIndexBuilder → parse → from_archive_index → build →
+parse (count + hash of the entries read back); `o …` / `of …` lines (oracle-only formats,
+evaluated on the implementation alone) are answered `-`.
 -/
 import Driver.Common
 import Cascette.Model.Serial
 import Cascette.Model.SerialPatchIndex
 import Cascette.Model.SerialTvfs
+import Cascette.Model.RootFile
+import Cascette.Model.ArchiveIndex
 open Drv Cascette Cascette.Model.Manifest Cascette.Model.Serial
 open Cascette.Model.SerialPatchIndex
 
@@ -55,6 +61,102 @@ def tcLine (flags : Nat) (data : List Nat) : String :=
   let es := Cascette.Model.SerialTvfs.cftEntrySize 9 9 flags
   s!"ok n={Cascette.Model.SerialTvfs.cftCount es data.length} rebuilt={Cascette.Model.SerialTvfs.rebuiltCftSize es data.length}"
 
+/-! ### root (C03's byte-level model): `<RootFile as CascFormat>::build` = every record re-inserted
+into a `RootBuilder` of the parsed version, blocks keyed by (locale, content) -/
+
+def fnv64N (b : List Nat) : UInt64 :=
+  b.foldl (fun h x => (h ^^^ (UInt64.ofNat x)) * 0x00000100000001b3) 0xcbf29ce484222325
+
+/-- `HashMap<(locale, content), RootBlock>` filled in insertion order (records of one key keep
+their order) -/
+def groupBlocks (recs : List (Nat × Nat × Cascette.Model.RootFile.Rec)) : List (Nat × Nat × List Cascette.Model.RootFile.Rec) :=
+  (recs.foldl (fun acc (l, c, r) =>
+    if acc.any (fun b => b.1 == l && b.2.1 == c) then
+      acc.map fun b => if b.1 == l && b.2.1 == c then (b.1, b.2.1, r :: b.2.2) else b
+    else acc ++ [(l, c, [r])]) []).map fun b => (b.1, b.2.1, b.2.2.reverse)
+
+def rootRecs (p : Cascette.Model.RootFile.Parsed) : List (Nat × Nat × Cascette.Model.RootFile.Rec) :=
+  p.blocks.flatMap fun b => b.recs.map fun r => (b.locale, b.content, r)
+
+def rootRebuild (p : Cascette.Model.RootFile.Parsed) : Option (List Nat) :=
+  Cascette.Model.RootFile.build p.version (groupBlocks (rootRecs p))
+
+def lexLe : List Nat → List Nat → Bool
+  | [], _ => true
+  | _ :: _, [] => false
+  | a :: as, b :: bs => a < b || (a == b && lexLe as bs)
+
+/-- logical content: version + the multiset of (FileDataID, content key, name hash, locale, content) -/
+def rootLogical (p : Cascette.Model.RootFile.Parsed) : Nat × List (List Nat) :=
+  (p.version.num, ((rootRecs p).map fun (l, c, r) =>
+    [r.fdid] ++ r.ckey ++ [match r.nameHash with | none => 0 | some h => h + 1, l, c]).mergeSort lexLe)
+
+def outcomeRoot (input : List Nat) : String :=
+  match Cascette.Model.RootFile.parse input with
+  | none => "err"
+  | some v =>
+    let sm := s!"v={v.version.num} b={v.blocks.length} r={(v.blocks.map (·.recs.length)).sum}"
+    match rootRebuild v with
+    | none => s!"ok {sm} fp=accepted-not-rebuildable"
+    | some y =>
+      let pre := s!"ok {sm} n={y.length} h={hexFixed 16 (fnv64N y).toNat}"
+      match Cascette.Model.RootFile.parse y with
+      | none => s!"{pre} fp=rebuilt-not-parseable"
+      | some v2 =>
+        if rootLogical v2 ≠ rootLogical v then s!"{pre} fp=rebuild-changes-content" else
+        match rootRebuild v2 with
+        | none => s!"{pre} fp=second-build-fails"
+        | some y2 => if y2 = y then s!"{pre} fp=ok" else s!"{pre} fp=second-build-differs"
+
+def verOf : Nat → Option Cascette.Model.RootFile.Version
+  | 1 => some .v1 | 2 => some .v2 | 3 => some .v3 | 4 => some .v4 | _ => none
+
+/-- `fd,ckey,hash|-,locale,content` records separated by `;` (`-` = empty program) -/
+def parseRecs (t : String) : Option (List (Nat × Nat × Cascette.Model.RootFile.Rec)) :=
+  if t == "-" then some [] else
+  (t.splitOn ";").mapM fun part =>
+    match part.splitOn "," with
+    | [fd, ck, nh, loc, cf] =>
+      let nh? : Option (Option Nat) := if nh == "-" then some none else nh.toNat?.map some
+      match fd.toNat?, parseHexNat ck, nh?, loc.toNat?, cf.toNat? with
+      | some fd, some ck, some nh, some loc, some cf =>
+        if ck.length ≠ 16 ∨ fd ≥ 4294967296 ∨ loc ≥ 4294967296 ∨ cf ≥ 18446744073709551616 then none
+        else some (loc, cf, ({ fdid := fd, ckey := ck, nameHash := nh } : Cascette.Model.RootFile.Rec))
+      | _, _, _, _, _ => none
+    | _ => none
+
+def rpLine (v : Cascette.Model.RootFile.Version) (recs : List (Nat × Nat × Cascette.Model.RootFile.Rec)) : String :=
+  match Cascette.Model.RootFile.build v (groupBlocks recs) with
+  | none => "err"
+  | some y => s!"ok n={y.length} h={hexFixed 16 (fnv64N y).toNat}"
+
+/-! ### archive index (C03's record-level model) -/
+
+def parseAEnts (t : String) : Option (List Cascette.Model.ArchiveIndex.Entry) :=
+  if t == "-" then some [] else
+  (t.splitOn ";").mapM fun part =>
+    match part.splitOn "," with
+    | [k, sz, off] =>
+      match parseHexNat k, sz.toNat?, off.toNat? with
+      | some k, some sz, some off =>
+        if sz ≥ 4294967296 ∨ off ≥ 18446744073709551616 then none
+        else some ({ key := k, size := sz, offset := off, archive := none } : Cascette.Model.ArchiveIndex.Entry)
+      | _, _, _ => none
+    | _ => none
+
+/-- with_config(ks, ob, 4) → build → parse → from_archive_index → build → parse -/
+def apLine (ks ob : Nat) (es : List Cascette.Model.ArchiveIndex.Entry) : String :=
+  let rpb := 4096 / (ks + 4 + ob)
+  match Cascette.Model.ArchiveIndex.buildParse ks ob rpb es with
+  | none => "err"
+  | some c =>
+    match Cascette.Model.ArchiveIndex.buildParse ks ob rpb c.entries with
+    | none => "err"
+    | some c2 =>
+      let listing := String.intercalate ";" (c2.entries.map fun e =>
+        s!"{hexOfNats e.key}:{e.size}:{e.offset}:{match e.archive with | some a => toString a | none => "-"}")
+      s!"ok n={c2.entries.length} h={hexFixed 16 (fnv64N (listing.toUTF8.toList.map (·.toNat))).toNat}"
+
 def formats : List String :=
   ["blte", "encoding", "aidx", "agroup", "root", "install", "download", "size", "tvfs", "parchive",
    "pindex", "zbsdiff", "buildcfg", "cdncfg", "patchcfg", "productcfg", "keyring", "bpsv", "espec"]
@@ -79,7 +181,18 @@ def handle (toks : List String) : String :=
           (fun z => s!"c={z.csize} d={z.dsize} o={z.osize} x={z.extra.length}") b
       else if fmt == "pidx" then
         outcomeL parsePFull (fun p => buildPIdx p.2) pidxSummary (fun p => p.2) b
+      else if fmt == "root" then outcomeRoot (b.map (·.toNat))
       else "bad-op"
+  | ["rp", v, recs] =>
+    match v.toNat?.bind verOf, parseRecs recs with
+    | some v, some recs => rpLine v recs
+    | _, _ => "bad-op"
+  | ["ap", ks, ob, ents] =>
+    match ks.toNat?, ob.toNat?, parseAEnts ents with
+    | some ks, some ob, some es =>
+      if ks = 0 ∨ ks > 16 ∨ ¬ (ob = 4 ∨ ob = 5 ∨ ob = 6) ∨ es.any (·.key.length ≠ ks) then "bad-op"
+      else apLine ks ob es
+    | _, _, _ => "bad-op"
   | ["tv", n, h] =>
     match n.toNat?, parseHexNat h with
     | some cft, some d => if cft < 4294967296 then tvLine cft d else "bad-op"
